@@ -71,6 +71,11 @@ impl<'a, 'b, 'resources, PathLocatorImpl: PathLocator>
     }
 
     fn apply(self, block: &mut Block, context: &Context) -> RuleProcessResult {
+        // a module that failed to load is still a dependency: the file requiring it
+        // must be processed again once the module is fixed
+        for path in &self.skip_module_paths {
+            context.add_file_dependency(path.clone());
+        }
         self.module_definitions.apply(block, context);
         match self.errors.len() {
             0 => Ok(()),
